@@ -253,8 +253,15 @@ stages:
 func (x *world) driveTrigger(ctx vctx.Context, cancel func(), mgr *workers.PoolManager) {
 	c := x.c
 	pool := mgr.NewTriggerPool(c.workers)
+	if _, ok := pool.VerifPendingOK(); !ok {
+		vrt.Infra("the accessor cannot find the pending-request counter of TriggerPool (the structure was refactored): this harness cannot observe quiescence")
+	}
+	if _, ok := pool.VerifStoppedOK(); !ok {
+		vrt.Infra("the accessor cannot find the stop flag of TriggerPool (the structure was refactored)")
+	}
 	x.pool = pool
 	wctx := pool.Start(ctx)
+	hlib.StopWhenDone(wctx, pool)
 	busy, left := int64(0), int64(0)
 	x.exact = true
 	quiesce := func() {
